@@ -346,6 +346,19 @@ ShapeThenUpdate ==
      upd \in {[k |-> "setitem", t |-> 1, ix |-> Basic(<<SL(FALSE, 3, FALSE, 6, TRUE, 1)>>), val |-> [s |-> Q(-1)]],
               [k |-> "setitem", t |-> 3, ix |-> Basic(<<IntI(0), SL(FALSE, 1, TRUE, 0, TRUE, 1)>>), val |-> [s |-> Q(7)]],
               [k |-> "aug", t |-> 2, f |-> "multiply", val |-> [s |-> Q(2)]]}}
+\* a view whose constant flag was given explicitly and differs from its base's; an in-place update through it (or through the
+\* base) must leave every tensor's flag as it was
+FlagProgs ==
+  {<< Leaf(1, <<2, 3>>, "NZ", bc),
+      IF vf = "reshape" THEN [k |-> "op", h |-> 2, f |-> vf, a |-> <<Opnd(1)>>, kw |-> [constant |-> IF bc THEN "false" ELSE "true"], sh |-> <<3, 2>>]
+      ELSE [k |-> "op", h |-> 2, f |-> vf, a |-> <<Opnd(1)>>, kw |-> [constant |-> IF bc THEN "false" ELSE "true"], a1 |-> 0, a2 |-> 1],
+      upd,
+      [k |-> "op", h |-> 3, f |-> "multiply", a |-> <<Opnd(1), [s |-> Q(2)]>>] >> :
+     bc \in BOOLEAN, vf \in {"reshape", "swapaxes"},
+     upd \in {[k |-> "setitem", t |-> 2, ix |-> Basic(<<IntI(0)>>), val |-> [s |-> Q(7)]],
+              [k |-> "aug", t |-> 2, f |-> "multiply", val |-> [s |-> Q(2)]],
+              [k |-> "setitem", t |-> 1, ix |-> Basic(<<IntI(1)>>), val |-> [s |-> Q(-1)]],
+              [k |-> "uout", f |-> "negative", a |-> <<Opnd(2)>>, out |-> 2, where |-> [sh |-> <<>>, v |-> <<TRUE>>]]}}
 InPlaceProgs ==
   UNION {{<< LeafO(1, <<2, 3>>, "NZ", ord) >> \o ch \o
             << IF upd = "aug" THEN [k |-> "aug", t |-> 1 + Len(ch), f |-> "multiply", val |-> Opnd(1 + Len(ch))]
@@ -359,7 +372,7 @@ Progs == CASE Group = "binary" -> BinProgs [] Group = "unary" -> UnProgs [] Grou
            [] Group = "whereout" -> WhereOutProgs [] Group = "move" -> MoveProgs
            [] Group = "activation" -> ActProgs [] Group = "cumulative" -> CumProgs [] Group = "sequence" -> SeqProgs
            [] Group = "einsum" -> EinProgs [] Group = "conv" -> ConvProgs [] Group = "maxpool" -> PoolProgs
-           [] Group = "loss" -> LossProgs [] Group = "inplace" -> InPlaceProgs \cup ShapeThenUpdate
+           [] Group = "loss" -> LossProgs [] Group = "inplace" -> InPlaceProgs \cup ShapeThenUpdate \cup FlagProgs
 
 Init == cellprog \in Progs
 Next == UNCHANGED cellprog
